@@ -129,7 +129,10 @@ def r3(chk, prog):
     w = Wrapper(prog, lambda c: callee_is(c, 'Groups::crossCheckArguments'))
     for g, adds in adders:
         cfg = g.cfg
-        ex = exempt_edges(g, lambda c: c.get('k') == 'MemberExpr' and c['ref']['name'] == 'mUsedByGroup', False)
+        # only the handler's OWN membership flag excuses the missing check (the flag of another handler, e.g. of the
+        # sub-group handler that is being attached, says nothing about this one)
+        ex = exempt_edges(g, lambda c: c.get('k') == 'MemberExpr' and c['ref']['name'] == 'mUsedByGroup' and (
+            not children(c) or strip_all_casts(children(c)[0]).get('k') == 'CXXThisExpr'), False)
         for c, fn in adds:
             pos = cfg.position(c)
             bad = cfg.can_reach_exit((pos[0], pos[1] + 1), lambda p, e: isinstance(e, int) and
